@@ -183,7 +183,28 @@ def enc_ident(cls, constructed, number):
     return bytes([b0 | 0x1F]) + bytes(reversed(out))
 
 
+# Encoding style of the independent encoder: (length form for constructed TLVs, for primitive TLVs).
+# None = minimal definite lengths; k = long form with k length octets (Active Directory writes every
+# constructed length with 4 octets).  Set only through `style()`.
+_STYLE = [None, None]
+
+
+class style:
+    def __init__(self, constructed_form=None, primitive_form=None):
+        self.new = [constructed_form, primitive_form]
+
+    def __enter__(self):
+        self.old = list(_STYLE)
+        _STYLE[:] = self.new
+        return self
+
+    def __exit__(self, *a):
+        _STYLE[:] = self.old
+
+
 def tlv(cls, constructed, number, content, form=None):
+    if form is None:
+        form = _STYLE[0] if constructed else _STYLE[1]
     return enc_ident(cls, constructed, number) + enc_len(len(content), form) + bytes(content)
 
 
